@@ -135,7 +135,7 @@ def run(ctx):
     ctx.lake_build(["Babylon.Properties.C17"])
     ctx.audit("Babylon.Properties.C17")
     if not ctx.quick:
-        ctx.leanchecker(["Babylon.Pages.Model", "Babylon.Properties.C17"])
+        ctx.leanchecker(["Babylon.Pages.Model", "Babylon.Pages.View", "Babylon.Properties.C17"])
     drv = ctx.driver("drv_C17")
     exe, seq, log = _build()
     if exe is None or seq is None:
